@@ -615,21 +615,33 @@ fn merge_so_instance_type(
         (None, None) => Ok(None),
         (None, other @ Some(_)) | (other @ Some(_), None) => Ok(other.cloned()),
 
-        // If each has a single type, it must match.
+        // If each has a single type, it must match... with the exception that
+        // every integer is also a number.
         (Some(SingleOrVec::Single(aa)), Some(SingleOrVec::Single(bb))) => {
             if aa == bb {
                 Ok(Some(SingleOrVec::Single(aa.clone())))
+            } else if matches!(
+                (**aa, **bb),
+                (InstanceType::Integer, InstanceType::Number)
+                    | (InstanceType::Number, InstanceType::Integer)
+            ) {
+                Ok(Some(SingleOrVec::Single(Box::new(InstanceType::Integer))))
             } else {
                 Err(())
             }
         }
 
         // If one has a single type and the other is an array, the type must
-        // appear in the array (and that's the resulting type).
+        // appear in the array (and that's the resulting type); again integers
+        // satisfy both "integer" and "number".
         (Some(SingleOrVec::Vec(types)), Some(SingleOrVec::Single(it)))
         | (Some(SingleOrVec::Single(it)), Some(SingleOrVec::Vec(types))) => {
             if types.contains(it) {
                 Ok(Some(SingleOrVec::Single(it.clone())))
+            } else if (**it == InstanceType::Integer && types.contains(&InstanceType::Number))
+                || (**it == InstanceType::Number && types.contains(&InstanceType::Integer))
+            {
+                Ok(Some(SingleOrVec::Single(Box::new(InstanceType::Integer))))
             } else {
                 Err(())
             }
@@ -638,13 +650,21 @@ fn merge_so_instance_type(
         // If both are arrays, we take the intersection; if the intersection is
         // empty, we return an error.
         (Some(SingleOrVec::Vec(aa)), Some(SingleOrVec::Vec(bb))) => {
-            let types = aa
+            let mut types = aa
                 .iter()
                 .collect::<BTreeSet<_>>()
                 .intersection(&bb.iter().collect::<BTreeSet<_>>())
                 .cloned()
                 .cloned()
                 .collect::<Vec<_>>();
+
+            // An integer satisfies "number" on the other side.
+            if !types.contains(&InstanceType::Integer)
+                && ((aa.contains(&InstanceType::Integer) && bb.contains(&InstanceType::Number))
+                    || (aa.contains(&InstanceType::Number) && bb.contains(&InstanceType::Integer)))
+            {
+                types.push(InstanceType::Integer);
+            }
 
             match types.len() {
                 // No intersection
